@@ -52,21 +52,31 @@ NodeLaw(s, t, e) ==
 
 IsSpan(p) == Len(p) = 4
 
-RECURSIVE LawWalk(_, _, _)
-LawWalk(x, y, e) ==
+(* Domain predicate DebugTextConstant: the literal Constant that CPython puts  *)
+(* before a self-documenting field `{expr = }` holds the text of the field,   *)
+(* its span OVERLAPS the field (it ends where the `=` part ends, it can begin *)
+(* at the `{`).  Its end points are therefore not "before" or "after" a spot  *)
+(* inside the field in the sense of the statement: the three-way law is not   *)
+(* asked of these Constants when the spot is in a debug field (their exact    *)
+(* position is still judged by OnText.pos against the from-scratch parse).    *)
+DebugTextConstant(x, lit, e) == e.dbg /\ lit /\ PKind(x) = "Constant"
+
+RECURSIVE LawWalk(_, _, _, _)
+LawWalk(x, y, e, lit) ==
   IF x = 0 \/ y = 0 THEN (IF x = y THEN {} ELSE {"Law.shape"})
   ELSE
   LET px == PTab[x].p  py == PTab[y].p  fx == PTab[x].f  fy == PTab[y].f IN
   \* an unchanged subtree that lies wholly before the spot (children never end after their parent)
   IF x = y /\ IsSpan(px) /\ Before(px, Pt(e.p)) /\ ~After(px, Pt(e.q)) THEN {}
   ELSE
-    (IF IsSpan(px) /\ IsSpan(py) THEN NodeLaw(px, py, e)
+    (IF DebugTextConstant(x, lit, e) THEN {}
+     ELSE IF IsSpan(px) /\ IsSpan(py) THEN NodeLaw(px, py, e)
      ELSE IF Len(px) = Len(py) THEN {} ELSE {"Law.shape"})
     \cup
     (IF Len(fx) # Len(fy) THEN {"Law.shape"}
      ELSE UNION {
        IF Len(fx[i].c) # Len(fy[i].c) THEN {"Law.shape"}
-       ELSE UNION {LawWalk(fx[i].c[j], fy[i].c[j], e) : j \in 1..Len(fx[i].c)}
+       ELSE UNION {LawWalk(fx[i].c[j], fy[i].c[j], e, PKind(x) = "JoinedStr" /\ fx[i].n = "values") : j \in 1..Len(fx[i].c)}
        : i \in 1..Len(fx)})
 
 (* ------------------------------------------------------------------------ *)
@@ -97,6 +107,14 @@ DerivedClauses(e) ==
        \cup {Cl("Derived.parsText", \A i \in 1..Len(d.parsEnds) : d.parsEnds[i] = <<40, 41>>)}
 
 (* ------------------------------------------------------------------------ *)
+(* Domain predicate DebugField: inside a self-documenting f-string field      *)
+(* `{expr = }` the blanks are part of the text CPython puts into the literal  *)
+(* Constant before the field, so a whitespace edit there legitimately changes *)
+(* that Constant's value: the structure is then only required to equal the    *)
+(* from-scratch parse of the NEW source (OnText.struct), not the old one.     *)
+(* Positions, the shift law and the derived answers are judged as everywhere. *)
+DebugField(e) == e.dbg
+
 InSync(s) == s.srcOk /\ s.liveP = s.srcP
 
 SelfPos(s, e) == PPos(PNodeAt(s.liveP, e.selfPath))
@@ -112,8 +130,8 @@ Clauses(s, e) ==
           THEN { Cl("TextIsSplice", t.text = e.expText),
                  Cl("OnText.struct", t.srcOk /\ t.liveS = t.srcS),
                  Cl("OnText.pos", t.srcOk /\ t.liveP = t.srcP),
-                 Cl("SameStructure", t.liveS = s.liveS) }
-               \cup (LET f == LawWalk(s.liveP, t.liveP, e)
+                 Cl("SameStructure", DebugField(e) \/ t.liveS = s.liveS) }
+               \cup (LET f == LawWalk(s.liveP, t.liveP, e, FALSE)
                      IN {Cl(c, c \notin f) : c \in {"Law.before", "Law.after", "Law.contains", "Law.shape"}})
                \cup ModelClauses(e)
                \cup DerivedClauses(e)
